@@ -4,8 +4,9 @@
      qb_hashtable_create : order = max(bit length of max_size, 3), 2^order buckets, count 0  (= order_of / h_create)
      hashtable_node_deref, skiplist_node_deref : refcount - 1, the node is destroyed iff it reaches 0 (= node_deref)
      hashtable_count_get, skiplist_count_get : the stored count / length
-   hash_fnv (pointer arithmetic over the key bytes) and skiplist_level_generate (local enum) are outside the
-   translator's subset: they stay tied by the correspondence run only. *)
+     skiplist_level_generate : the level = number of leading random() answers with (uint16_t)r < P_CEIL, capped at
+                               SKIPLIST_LEVEL_MAX (= new_level on the list of answers the call consumed)
+   hash_fnv is tied in coq/MapHashFnvSrcEq.v / coq/PropertiesSrcFnv_C17.v (lead). *)
 From Coq Require Import ZArith List Bool Lia Arith.
 Require Import Verif.C2CoqPrelude Verif.gen.Src_maphash Verif.gen.Src_mapskip Verif.MapSpec Verif.MapHashModel Verif.MapSkipModel Verif.MapHashProofs2.
 Local Open Scope Z_scope.
@@ -153,4 +154,68 @@ Qed.
 
 Lemma src_create_example :
   create_order (qb_hashtable_create 400 100 0 1 2 3 4 5 6 7 8 9 10 0 0 0 0 0 0 0 0 0 0 0 0 0 (fun _ => 4096)) = Some (0, 128, 7).
+Proof. vm_compute. reflexivity. Qed.
+
+(* ---- skiplist_level_generate ---- *)
+Import ListNotations.
+Local Open Scope Z_scope.
+Definition lvl_cond (r : Z) : bool := Z.ltb (r mod 65536) P_CEIL.
+
+Lemma lvl_cond_src : forall r, 0 <= r < 2 ^ 63 -> (s32 (u16 (s64 r)) <? 16383) = lvl_cond r.
+Proof.
+  intros. rewrite s64_small by lia. unfold u16, uwrap. change (2 ^ 16) with 65536.
+  assert (0 <= r mod 65536 < 65536) by (apply Z.mod_pos_bound; lia). rewrite s32_small by lia. reflexivity.
+Qed.
+
+Lemma s8_small' : forall x, -128 <= x < 128 -> s8 x = x.
+Proof. intros. unfold s8, swrap. change (2 ^ (8 - 1)) with 128. change (2 ^ 8) with 256. rewrite Z.mod_small; lia. Qed.
+
+(* the loop: [good] answers pass the test, [bad] fails it; the stream orc serves them from position cnt on *)
+Lemma level_loop : forall good bad fuel orc cnt level,
+  (forall i, (i < length good)%nat -> orc (cnt + Z.of_nat i) = nth i good 0) -> orc (cnt + Z.of_nat (length good)) = bad ->
+  Forall (fun r => 0 <= r < 2 ^ 63 /\ lvl_cond r = true) good -> 0 <= bad < 2 ^ 63 -> lvl_cond bad = false ->
+  0 <= level -> level + Z.of_nat (length good) < 128 -> (length good < fuel)%nat ->
+  skiplist_level_generate_loop1 fuel orc cnt level = Some (cnt + Z.of_nat (length good) + 1, level + Z.of_nat (length good)).
+Proof.
+  induction good; intros bad fuel orc cnt level OG OB FG BR BC L0 L1 HF; (destruct fuel; [simpl in HF; lia|]); cbn [skiplist_level_generate_loop1].
+  - simpl in OB. rewrite Z.add_0_r in OB. rewrite OB. rewrite lvl_cond_src by auto. rewrite BC. simpl. f_equal. f_equal; lia.
+  - generalize (OG 0%nat). simpl. rewrite Z.add_0_r. intro O0. rewrite O0 by lia.
+    assert (A := Forall_inv FG). assert (FG' := Forall_inv_tail FG). destruct A as [A1 A2]. rewrite lvl_cond_src by auto. rewrite A2.
+    rewrite s8_small' by (simpl in L1; lia).
+    rewrite (IHgood bad fuel orc (cnt + 1) (level + 1)); auto.
+    + f_equal. f_equal; simpl length; lia.
+    + intros i Hi. generalize (OG (S i)). simpl. intro Q. rewrite <- Q by lia. f_equal. lia.
+    + rewrite <- OB. f_equal. simpl length. lia.
+    + lia.
+    + simpl in L1. lia.
+    + simpl in HF. lia.
+Qed.
+
+Lemma level_generate_app : forall good bad acc, Forall (fun r => lvl_cond r = true) good -> lvl_cond bad = false ->
+  level_generate (good ++ [bad]) acc = (acc + length good)%nat.
+Proof.
+  induction good; simpl; intros.
+  - unfold lvl_cond in H0. rewrite H0. lia.
+  - inversion H; subst. unfold lvl_cond in H3. rewrite H3. rewrite IHgood; auto. lia.
+Qed.
+
+(* translated skiplist_level_generate = the model's new_level on the answers the call consumed *)
+Theorem src_skiplist_level_generate : forall good bad fuel orc cnt,
+  (forall i, (i < length good)%nat -> orc (cnt + Z.of_nat i) = nth i good 0) -> orc (cnt + Z.of_nat (length good)) = bad ->
+  Forall (fun r => 0 <= r < 2 ^ 63 /\ lvl_cond r = true) good -> 0 <= bad < 2 ^ 63 -> lvl_cond bad = false ->
+  (length good < 128)%nat -> (length good < fuel)%nat ->
+  skiplist_level_generate fuel cnt orc = Some (Z.of_nat (new_level (good ++ [bad])), cnt + Z.of_nat (length (good ++ [bad]))).
+Proof.
+  intros. unfold skiplist_level_generate. rewrite (s8_small' 0) by lia. rewrite (s8_small' 0) by lia.
+  rewrite (level_loop good bad fuel orc cnt 0); auto; try lia. simpl Z.add.
+  unfold new_level. rewrite level_generate_app; auto.
+  2:{ eapply Forall_impl. 2: exact H1. simpl. intros a [_ Q]. exact Q. }
+  simpl plus. rewrite app_length. simpl length.
+  rewrite s32_small by lia. destruct (Z.of_nat (length good) <? 8) eqn:E.
+  - apply Z.ltb_lt in E. rewrite Nat.min_l by (unfold LEVEL_MAX; lia). f_equal. f_equal. lia.
+  - apply Z.ltb_ge in E. rewrite Nat.min_r by (unfold LEVEL_MAX; lia). rewrite s8_small' by lia. f_equal. f_equal. lia.
+Qed.
+
+Lemma src_level_example :
+  skiplist_level_generate 10 0 (fun k => if k <? 3 then 5 else 65535) = Some (3, 4).
 Proof. vm_compute. reflexivity. Qed.
